@@ -133,9 +133,9 @@ def thin_cfg(ops, nslots, nblocks, frames, maxlen):
                       "VIEW MCView", "INVARIANT Invariants", "PROPERTY ActionsOK", "ACTION_CONSTRAINT Emit", "CHECK_DEADLOCK FALSE", ""])
 
 
-def thin(prop, tier, name, ops, nslots, nblocks, frames, maxlen, simulate=None):
+def thin(prop, tier, name, ops, nslots, nblocks, frames, maxlen, simulate=None, harness_cfg="a"):
     return stage(S.graph_replay, prop, tier, name, "thin", "MC_Thin.tla", THIN_MODULES, thin_cfg(ops, nslots, nblocks, frames, maxlen), nslots,
-                 simulate=simulate)
+                 simulate=simulate, harness_cfg=harness_cfg)
 
 
 UNINIT_MODULES = ["Uninit.tla", "MC_Uninit.tla"]
@@ -259,6 +259,9 @@ def c01(tier, seed):
                 slices("C01", tier, "slices_life_q", 3, 2, 2),
                 # the same graph against the no_std build of the crate (configuration B)
                 sized("C01", tier, "sized_life_nostd_q", BASE + CONV_CORE + ["Borrow", "Enter", "Exit", "TryUnique", "MakeMut", "TryUnwrap"], 3, 2, 1, harness_cfg="b"),
+                # ... and against the crate as `cargo build` / `cargo test` build it (debug assertions, overflow checks)
+                sized("C01", tier, "sized_life_debug_q", BASE + CONV_CORE + ["Borrow", "Enter", "Exit", "TryUnique", "MakeMut", "TryUnwrap", "IntoInner"], 3, 2, 1, harness_cfg="d"),
+                thin("C01", tier, "thin_life_debug_q", THIN_OPS, 3, 2, 1, 1, harness_cfg="d"),
                 mm("C01", tier, "mm_clone_drop_q", [("c01_2x3", ["clone", "read", "drop"], 2, 3, 2, False)]),
                 nested_frames("C01", tier), thin_lengths("C01", tier), inj("C01", tier),
                 # every release path of every shape returns the block once; real ArcSwap traffic keeps counts exact
@@ -270,6 +273,8 @@ def c01(tier, seed):
             thin("C01", tier, "thin_life_t", THIN_OPS, 4, 2, 2, 2),
             slices("C01", tier, "slices_life_t", 4, 2, 2), slices("C01", tier, "slices_walks_t", 6, 4, 3, simulate=(5000, 60, seed)),
             sized("C01", tier, "sized_life_nostd_t", BASE + CONV + BORROW + UNIQ + COW + UNWRAP, 3, 2, 1, harness_cfg="b"),
+            sized("C01", tier, "sized_life_debug_t", BASE + CONV + BORROW + UNIQ + COW + UNWRAP, 3, 2, 1, harness_cfg="d"),
+            thin("C01", tier, "thin_life_debug_t", THIN_OPS, 4, 2, 1, 2, harness_cfg="d"),
             mm("C01", tier, "mm_clone_drop_t", [("c01_2x3", ["clone", "read", "drop"], 2, 3, 2, False), ("c01_3x3", ["clone", "read", "drop"], 3, 3, 1, False)]), inj("C01", tier),
             lay("C01", tier, "layout_matrix_t"),
             stage(CT.ctor_stage, "C01", tier, "release_t", ["release", "union_drop", "zst"], True, only_cats=["frees", "drops", "baddrop", "leak", "crash", "panicked"])] + swaps("C01", tier, seed) + long_walks("C01", tier, seed)
